@@ -154,6 +154,7 @@ var soupTokens = []string{
 
 // soupTails end a document: short last lines at the very end of the buffer.
 var soupTails = []string{
+	"\r", "\nINCLUDE x.jst\r", "\r\n", " // a\r",
 	"\nGET /a\n  Description\n    5", "\nGET /a\n  Description\n    42", "\nINFO\n  Description\n  text\n  1.", "\nDescription\n 3",
 	"\nGET /a\n  Description\n    2\n", "\nGET /a // a", "\nGET /a /*", "\nTYPE @t\n  {", "\nURL /a\n(", "\nENUM @e\n  [", "\nGET /a\n  200\n    1 // {",
 }
@@ -274,12 +275,21 @@ func (c *c01) DumpCase(seed uint64, idx int) []Case {
 		if r.chance(150) {
 			sb.WriteString(soupTails[r.n(len(soupTails))])
 		}
+		if r.chance(60) {
+			// one-line documents whose only line break (if any) is a lone trailing CR
+			sb.Reset()
+			sb.WriteString([]string{"INCLUDE x.jst\r", "INCLUDE nope.jst\r", "JSIGHT 0.3\r", "JSIGHT 0.3 GET\r", "(\r", "GET /a // x\r", "INCLUDE x.jst", "\r"}[r.n(8)])
+		}
 		p := Project{Root: "/sim/proj/s/main.jst", Cwd: "/sim/cwd"}
 		p.set(p.Root, []byte(sb.String()))
 		// a sibling that soup INCLUDEs can hit: empty, or soup again
 		var sb2 strings.Builder
 		for i := r.n(4); i > 0; i-- {
 			sb2.WriteString(soupTokens[r.n(len(soupTokens))])
+		}
+		if r.chance(150) {
+			sb2.Reset()
+			sb2.WriteString([]string{"INCLUDE y.jst\r", "GET /x\r", "TYPE @q\r", "\r"}[r.n(4)])
 		}
 		p.set("/sim/proj/s/x.jst", []byte(sb2.String()))
 		base.Project = p
